@@ -3,6 +3,8 @@
 (* (per-behaviour export: the state carries its own history, so states = behaviours).     *)
 EXTENDS DFTMachine, Json, IOUtils
 MC_MaxLen == IF IOEnv.C18_HLEN = "4" THEN 4 ELSE 3
+MC_Slim == IOEnv.C18_HSLIM = "1"
+MC_Efforts == IF IOEnv.C18_HEFF = "3" THEN {"estimate", "measure", "patient"} ELSE {"estimate", "measure"}
 HeapRec(h) == [x1 |-> h["x1"], x2 |-> h["x2"], y |-> h["y"], z |-> h["z"], r |-> h["r"], q |-> h["q"]]
 Export ==
   Len(hist) < MC_MaxLen \/
